@@ -1,6 +1,6 @@
 (* driver for the C04 model.  One cell of the matrix per line:
      <op> <reason> <event> <order> <deadline 0|1> <status> <variant>
-   op sr|sm|en|ri|rm|rt|ca|ax   reason paused|window|slot|silent   event rst|goaway|garbage|lost|close
+   op sr|sm|en|ri|rm|rt|ca|ax   reason paused|window|slot|silent   event rst|goaway|garbage|lost|close|serr
    order before|during   status none|h503|tonly<k>|trailers<k>   variant base|implicit|after_headers
    Answer: what Model/Termination.predict computes for the cell on the generated client operations:
      setup=.. blocked=<site|no> registered=0|1 werr=<class> op=<class> ctx=<class> late=<class>
@@ -16,7 +16,7 @@ let reason_of = function
   | "paused" -> RPaused | "window" -> RWindow | "slot" -> RSlot | "silent" -> RSilent
   | _ -> failwith "reason"
 let event_of = function
-  | "rst" -> VRst | "goaway" -> VGoaway | "garbage" -> VGarbage | "lost" -> VLost | "close" -> VClose
+  | "rst" -> VRst | "goaway" -> VGoaway | "garbage" -> VGarbage | "lost" -> VLost | "close" -> VClose | "serr" -> VSerr
   | _ -> failwith "event"
 let starts_with p s = String.length s >= String.length p && String.sub s 0 (String.length p) = p
 let tail p s = String.sub s (String.length p) (String.length s - String.length p)
